@@ -722,8 +722,10 @@ def main(ctx: Ctx) -> int:
         at = max(1, min(rj["at"], len(tr["ev"])))
         evk = tr["ev"][at - 1]["k"]
         prop = CLAUSE_PROP.get(clause, "C01")
-        if tr.get("mode") == "observe" and clause == "TermsOnlyInRange":
-            prop = "C03"
+        if clause == "TermsOnlyInRange" and pid in ("C01", "C02", "C03"):
+            # a term on an equation / cell outside the network's own species is wrong for the right-hand side (C01), for the Jacobian
+            # (C02) and for the declared sizes (C03) alike: it is reported by whichever of them is being checked
+            prop = pid
         if evk == "Modifier" and clause == "RhsTerms":
             prop = "C13"
         if prop != pid:
